@@ -183,7 +183,10 @@ let run clause_prefix path =
   let classes = Hashtbl.create 4096 in
   L.iter (fun k ->
     incr cases;
-    let items = Array.of_list (L.rev_map snd !(Hashtbl.find scns k)) in
+    let all_items = L.rev_map snd !(Hashtbl.find scns k) in
+    (* the precleanup mark only matters to the clause scanners, not to the monitor *)
+    let items = Array.of_list (L.filter (function Mark (_, "precleanup") -> false | _ -> true) all_items) in
+    let rest_points = L.filter_map (function Mark (q, "precleanup") -> Some q | _ -> None) all_items in
     (* clause scanners over the observed sequence alone (TraceScan.v): they judge the trace even
        when the monitor does not accept it *)
     let reported = Hashtbl.create 8 in
@@ -193,6 +196,8 @@ let run clause_prefix path =
         Printf.printf "propfail %s %s seq=%s %s\n" k clause seq detail end in
     let evs = L.filter_map (function Ev (q, _, e) -> Some (q, e) | Mark _ -> None) (Array.to_list items) in
     let quiescent_end = Hashtbl.find_opt ends k = Some "quiescent" in
+    let evs_m = L.filter_map (function Ev (q, _, e) -> Some (q, Some e) | Mark (q, "precleanup") -> Some (q, None) | Mark _ -> None) all_items in
+    ignore rest_points;
     let all_events = L.map snd evs in
     (* attribution of a second delivery: known finding only if a PUBCOMP write for this id failed after the
        first delivery and the client was replaced (resume) before the second one *)
@@ -250,14 +255,41 @@ let run clause_prefix path =
        | TraceScan.YRelCb (_, _, id) -> ("exactly_once", "pubrel_for_stored_id_without_delivery id=" ^ string_of_n id)
        | TraceScan.YComp (_, id) -> ("pubrel_answered", "pubrel_for_stored_id_unanswered id=" ^ string_of_n id)
        | TraceScan.YDel id -> ("exactly_once", "stored_message_not_deleted id=" ^ string_of_n id) in
-     let rec go y = function
+     let rec go st y = function
        | [] -> ()
        | (q, e) :: rest ->
+         if not (TraceScan.rel_ok st e) then
+           (match e with
+            | C.ELookup (_, id, Some x) ->
+              report "exactly_once" q ("pubrel_lookup_differs_from_what_was_stored id=" ^ string_of_n id ^
+                " lookup=" ^ s_of_opt_packet x ^ " stored=" ^ s_of_opt_packet (Store.store_lookup st id) ^
+                (if x = None then " stored_publish_never_delivered" else "") ^ " (trace scan)")
+            | _ -> ())
+         else
          (match TraceScan.ack_step y e with
-          | Some y' -> go y' rest
-          | None -> let (clause, what) = name_of y in
+          | Some y' -> go (TraceScan.rel_step st y e) y' rest
+          | None ->
+            let (clause, what) =
+              match y, e with
+              | (TraceScan.YNone | TraceScan.YPub _), C.EDelete (Store.Incoming, id, _) ->
+                ("exactly_once", "stored_inbound_message_deleted_outside_its_pubrel id=" ^ string_of_n id)
+              | TraceScan.YNone, C.ESave (Store.Incoming, p, _) ->
+                ("pubrec_always", "inbound_store_written_outside_a_publish " ^ s_of_packet p)
+              | TraceScan.YNone, C.ELookup (_, id, _) ->
+                ("pubrel_answered", "lookup_without_pubrel id=" ^ string_of_n id)
+              | _ -> name_of y in
             report clause q (what ^ " next_processor_event=" ^ event_kind e ^ " (trace scan)")) in
-     go TraceScan.YInit evs);
+     go [] TraceScan.YInit evs);
+    (* a callback error must leave the connection over wherever the client has come to rest *)
+    (let rec go x = function
+       | [] -> if quiescent_end && not (TraceScan.error_closes_ok x) then
+                 report "error_closes" "end" "callback_error_but_connection_never_closed (trace scan)"
+       | (q, None) :: rest ->
+         if not (TraceScan.error_closes_ok x) then
+           report "error_closes" q "callback_error_but_connection_not_closed_when_the_client_came_to_rest (trace scan)";
+         go x rest
+       | (_, Some e) :: rest -> go (TraceScan.close_step x e) rest in
+     go { TraceScan.cs_failed = false; cs_over = false } evs_m);
     (let rec go l = function
        | [] -> ()
        | (q, e) :: rest ->
